@@ -10,6 +10,8 @@ tick <ms>                                         advance the virtual clock
 load <n> <rule>*n                                 hotspot.LoadRules on a cleared module  => number of rules in force
       rule = res=<name>,cb=<0|1|k>,idx=<int>,key=<name|->,T=<int>,burst=<int>,D=<int>,mq=<int>,cap=<int>,items=<-|val@int;val@int…>
 entry <res> <batch> <nargs> <val>*nargs <natt> <key=val>*natt
+sweep <res> <batch> <prefix> <lo> <hi>            one entry per k in [lo,hi) with the single argument <prefix>k (e.g. v:i:)
+      => run-length encoded results `<n>x<result>;…` (spaces as `_`)
       => pass | block <rule#> | spin, optionally followed by ` w:<ns>,<ns>…` (sleeps asked of the clock, in order)
 ```
 `model`  = the code-shaped model (`Sentinel.Hot.slotCheck`).
@@ -84,6 +86,30 @@ def showSleeps (sl : List Int) : String :=
 structure St where
   ctls : List Ctl := []
   nowNs : Int := 0
+  gen : Nat := 0              -- number of loads so far; a controller created by load `g` at position `i` is rule# g*1000+i
+
+def entryModel (s : St) (e : Entry) : St × String :=
+  let (cs, now, o) := slotCheck e.res e.args e.atts e.b s.ctls s.nowNs []
+  let r := if o.spin then "spin" else match o.blocked with
+    | some g => s!"block {g}"
+    | none => "pass"
+  ({ s with ctls := cs, nowNs := now }, r ++ showSleeps o.sleeps)
+
+/-- run-length encoding of a list of results: `<n>x<result with '_' for ' '>` joined by `;` -/
+def rle (rs : List String) : String :=
+  let groups := rs.foldl (fun (acc : List (String × Nat)) r =>
+    match acc with
+    | (r', n) :: rest => if r' = r then (r', n + 1) :: rest else (r, 1) :: acc
+    | [] => [(r, 1)]) []
+  ";".intercalate (groups.reverse.map fun (r, n) => toString n ++ "x" ++ r.replace " " "_")
+
+def unrle (s : String) : Option (List String) :=
+  (s.splitOn ";").foldlM (fun acc g =>
+    match g.splitOn "x" with
+    | n :: rest => match n.toNat? with
+      | some n => some (acc ++ List.replicate n (("x".intercalate rest).replace "_" " "))
+      | none => none
+    | [] => none) []
 
 def stepModel (s : St) (ts : List String) (_ : String) : St × Option String :=
   match ts with
@@ -96,17 +122,19 @@ def stepModel (s : St) (ts : List String) (_ : String) : St × Option String :=
   | "load" :: n :: rules => match n.toNat?, rules.mapM parseRule with
       | some n, some rs =>
         if rs.length ≠ n then (s, some "bad-op") else
-        let cs := mkCtls rs
-        ({ s with ctls := cs }, some (toString cs.length))
+        let cs := reload (s.gen * 1000) s.ctls rs
+        ({ s with ctls := cs, gen := s.gen + 1 }, some (toString cs.length))
       | _, _ => (s, some "bad-op")
   | "entry" :: _ => match parseEntry ts with
       | none => (s, some "bad-op")
-      | some e =>
-        let (cs, now, o) := slotCheck e.res e.args e.atts e.b s.ctls s.nowNs []
-        let r := if o.spin then "spin" else match o.blocked with
-          | some g => s!"block {g}"
-          | none => "pass"
-        ({ ctls := cs, nowNs := now }, some (r ++ showSleeps o.sleeps))
+      | some e => let (s', r) := entryModel s e; (s', some r)
+  | ["sweep", res, b, pre, lo, hi] => match b.toNat?, lo.toNat?, hi.toNat? with
+      | some b, some lo, some hi =>
+        let (s', rs) := (List.range (hi - lo)).foldl (fun (acc : St × List String) k =>
+          let (s', r) := entryModel acc.1 { res := res, b := b, args := [pre ++ toString (lo + k)], atts := [] }
+          (s', r :: acc.2)) (s, [])
+        (s', some (rle rs.reverse))
+      | _, _, _ => (s, some "bad-op")
   | _ => (s, some "bad-op")
 
 /-! ### oracle mode -/
@@ -127,10 +155,13 @@ structure ORule where
   recency : List Val := []               -- spec of the LRU: the `cap` most recently metered values
   distinct : List Val := []              -- every value metered so far
   vals : List (Val × VRec) := []
+  lit : Bool := true                     -- false once the statistic was inherited by a *changed* rule: the literal bounds
+                                         -- (stated for one threshold) are not claimed, independence still is
   tainted : Bool := false                -- some earlier request left the int64 range: no further claims for this rule
 
 structure OSt where
   rules : List ORule := []
+  gen : Nat := 0
   nowNs : Int := 0
   t0 : Option Int := none
   mono : Bool := true
@@ -212,7 +243,7 @@ def judgeOne (o : ORule) (v : Val) (t b : Int) (adm : Option Int) (t0 : Int) : O
       resident := if meters then true else rec1.resident,
       first := if meters then first else rec1.first,
       admits := if meters then (match adm with | some _ => (t, b) :: admits | none => admits) else rec1.admits }
-    (putRec o1 v rec2, (vInd.join vWait).join vLit)
+    (putRec o1 v rec2, (vInd.join vWait).join (if o.lit then vLit else .ok))
   else
     let ivReal := b * dms                      -- real spacing b·D/T ms  ⇔  gap·T ≥ b·D·1000
     let iv := ivReal / Tv                      -- the code's spacing (floor, whole ms); Tv > 0 whenever used
@@ -264,7 +295,10 @@ def judgeEntry (s : OSt) (e : Entry) (blocked : Option Nat) (sleeps : List Int) 
   let nThr := (mine.filter fun o => o.rule.cb ≠ 0).length
   let sleepNs := sleeps.foldl (· + ·) 0
   let s1 := { s with nowNs := (s.nowNs + sleepNs) % two64, mono := s.mono && decide (s.nowNs + sleepNs < two64) }
-  if !s.mono || nThr ≥ 2 then (s1, .na) else
+  if !s.mono || nThr ≥ 2 then
+    -- no claim, and the rules of this resource saw traffic the oracle did not follow: no further claims for them
+    -- (nor for whoever inherits their statistics on a reload)
+    ({ s1 with rules := s1.rules.map fun o => if o.rule.res = e.res then { o with tainted := true } else o }, .na) else
   if sleeps.length > 1 || sleeps.any (fun x => x ≤ 0 || x % 1000000 ≠ 0) then
     -- a wait beyond the int64 nanosecond range (absurd MaxQueueingTimeMs) is outside the guarded region
     (s1, if mine.any (fun o => o.tainted || decide (o.rule.mq ≥ 1000000000000)) then .na else .bad "sleeps") else
@@ -308,10 +342,20 @@ def stepOracle (s : OSt) (ts : List String) (line : String) : OSt × Option Stri
   | "load" :: n :: rules => match n.toNat?, rules.mapM parseRule with
       | some n, some rs =>
         if rs.length ≠ n then (s, some "bad-op") else
-        let cs := mkCtls rs
-        let want := toString cs.length
-        let os := cs.map fun c => ({ gid := c.gid, rule := c.rule } : ORule)
-        ({ s with rules := os }, some (if resPart line = some want then "ok" else "bad rules-in-force"))
+        -- the reuse plan decides which rule of the new generation continues which old rule's per-value history
+        let plan := planFrom (s.gen * 1000) (s.rules.map fun o => (o.gid, o.rule)) 0 rs
+        let os := plan.map fun (g, r, o) =>
+          match o with
+          | .fresh => ({ gid := g, rule := r } : ORule)
+          | .same og => (s.rules.find? (fun x => x.gid == og)).getD { gid := g, rule := r }
+          | .stat og => match s.rules.find? (fun x => x.gid == og) with
+            | some x =>
+              let keep := x.lit && x.rule.T == r.T && x.rule.burst == r.burst && x.rule.mq == r.mq
+                            && sameItems x.rule.items r.items
+              { x with gid := g, rule := r, lit := keep }
+            | none => { gid := g, rule := r }
+        let want := toString os.length
+        ({ s with rules := os, gen := s.gen + 1 }, some (if resPart line = some want then "ok" else "bad rules-in-force"))
       | _, _ => (s, some "bad-op")
   | "entry" :: _ => match parseEntry ts, (resPart line).bind parseResult with
       | some e, some (blocked, sleeps) =>
@@ -319,6 +363,21 @@ def stepOracle (s : OSt) (ts : List String) (line : String) : OSt × Option Stri
         (s', some v.show)
       | some _, none => (s, some "bad unparsable-result")
       | none, _ => (s, some "bad-op")
+  | ["sweep", res, b, pre, lo, hi] => match b.toNat?, lo.toNat?, hi.toNat? with
+      | some b, some lo, some hi =>
+        match (resPart line).bind unrle with
+        | none => (s, some "bad unparsable-result")
+        | some rs =>
+          if rs.length ≠ hi - lo then (s, some "bad sweep-length") else
+          -- every entry of the sweep is judged like a single `entry`; the line gets the worst verdict (first reason)
+          let (s', v) := (List.range (hi - lo)).zip rs |>.foldl (fun (acc : OSt × Verdict) (k, r) =>
+            match parseResult r with
+            | none => (acc.1, if acc.2.rank ≥ 3 then acc.2 else .bad "unparsable-result")
+            | some (blocked, sleeps) =>
+              let (s', x) := judgeEntry acc.1 { res := res, b := b, args := [pre ++ toString (lo + k)], atts := [] } blocked sleeps
+              (s', if x.rank > acc.2.rank then x else acc.2)) (s, Verdict.na)
+          (s', some v.show)
+      | _, _, _ => (s, some "bad-op")
   | _ => (s, some "bad-op")
 
 def run (mode : String) : IO Unit :=
